@@ -7,6 +7,7 @@ package aa
 import (
 	"embed"
 	"fmt"
+	"slices"
 	"strings"
 	"text/template"
 )
@@ -197,14 +198,20 @@ func join(i any) string {
 	case []string:
 		return strings.Join(i, " ")
 	case map[string]string:
-		res := []string{}
-		for k, v := range i {
-			res = append(res, k+"="+v)
-		}
-		return strings.Join(res, " ")
+		return strings.Join(sortedPairs(i), " ")
 	default:
 		return i.(string)
 	}
+}
+
+// sortedPairs returns the key=value pairs of a map in a reproducible order
+func sortedPairs(m map[string]string) []string {
+	res := make([]string, 0, len(m))
+	for k, v := range m {
+		res = append(res, k+"="+v)
+	}
+	slices.Sort(res)
+	return res
 }
 
 func cjoin(i any) string {
@@ -215,11 +222,7 @@ func cjoin(i any) string {
 		}
 		return "(" + strings.Join(i, " ") + ")"
 	case map[string]string:
-		res := []string{}
-		for k, v := range i {
-			res = append(res, k+"="+v)
-		}
-		return "(" + strings.Join(res, " ") + ")"
+		return "(" + strings.Join(sortedPairs(i), " ") + ")"
 	default:
 		return i.(string)
 	}
